@@ -108,19 +108,18 @@ Section ElispRoundtrip.
       end).
   Proof. reflexivity. Qed.
 
-  Definition pre_ok (pre : bytes) : Prop := pre = [] \/ pre = [32].
+  (* what may precede a datum: any whitespace and line comments *)
+  Definition pre_ok (pre : bytes) : Prop := trivia pre.
+  Lemma pre_nil : pre_ok []. Proof. constructor. Qed.
+  Lemma pre_space : pre_ok [32]. Proof. apply tv_ws; [reflexivity|constructor]. Qed.
 
-  Lemma ws_pre f r pre b l : (2 <= f)%nat -> pre_ok pre -> at_bytes r (pre ++ b :: l) -> starts_datum b ->
+  Lemma ws_pre f r pre b l : (length pre + 2 <= f)%nat -> pre_ok pre -> at_bytes r (pre ++ b :: l) -> starts_datum b ->
     exists r', parse_whitespace f r = (Ok (Some b), r') /\ at_bytes r' (b :: l) /\ peeked r' /\ rk r' = rk r.
-  Proof.
-    intros Hf [->| ->] Ha Hb; cbn [app] in Ha.
-    - apply ws_here; auto. lia.
-    - apply ws_space; auto.
-  Qed.
+  Proof. intros Hf Hpre Ha Hb. apply (ws_trivia pre Hpre); auto. lia. Qed.
 
   (* skip to the token, read it, continue with the value it stands for *)
   Lemma next_value_at f r D pre b l :
-    (2 <= f)%nat -> pre_ok pre -> at_bytes r (pre ++ b :: l) -> starts_datum b ->
+    (length pre + 2 <= f)%nat -> pre_ok pre -> at_bytes r (pre ++ b :: l) -> starts_datum b ->
     exists r0, at_bytes r0 (b :: l) /\ peeked r0 /\ rk r0 = rk r /\
       forall tok r1, parse_token f b r0 = (Ok tok, r1) ->
                      next_value (S f) (mkp r D) = after_token f tok (mkp r1 D).
@@ -207,7 +206,7 @@ Section ElispRoundtrip.
 
   Definition P (v : value) : Prop :=
     forall fuel r D pre rest, pre_ok pre -> ert_ok v -> N.of_nat (rdepth v) < D -> D <= 128 ->
-      (length (txt v) + K <= fuel)%nat -> at_bytes r (pre ++ txt v ++ rest) -> delim_ok rest ->
+      (length pre + length (txt v) + K <= fuel)%nat -> at_bytes r (pre ++ txt v ++ rest) -> delim_ok rest ->
       exists r', next_value fuel (mkp r D) = (POk (Some (efold v)), mkp r' D) /\ at_bytes r' rest /\ rk r' = rk r.
 
   Lemma sd c : is_ws c = false -> c <> 59 -> starts_datum c.
@@ -397,7 +396,7 @@ Section ElispRoundtrip.
   Proof. unfold symbol_value. rewrite symbol_token_elisp. reflexivity. Qed.
 
   Lemma elem_step a : P a -> forall f r D acc pre more, pre_ok pre -> ert_ok a -> N.of_nat (rdepth a) < D -> D <= 128 ->
-    (length (txt a) + K <= f)%nat -> at_bytes r (pre ++ txt a ++ more) -> delim_ok more ->
+    (length pre + length (txt a) + K <= f)%nat -> at_bytes r (pre ++ txt a ++ more) -> delim_ok more ->
     exists r1, parse_list (S f) 41 acc (mkp r D) = parse_list f 41 (acc ++ [efold a]) (mkp r1 D) /\
                at_bytes r1 more /\ rk r1 = rk r.
   Proof.
@@ -428,7 +427,7 @@ Section ElispRoundtrip.
       rewrite (pbind_eq _ _ _ _ _ (liftR_ok _ r2 D _ _ E3)). cbn [app]. rewrite symbol_value_dot.
       exists r3. split; [reflexivity|]. split; [assumption|congruence].
     - change (b :: t ++ more) with ((b :: t) ++ more) in Ha0. rewrite <- E in Ha0.
-      destruct (HP f r0 D [] more (or_introl eq_refl) Hok HD HD' ltac:(unfold K; lia) Ha0 Hm) as (r1 & E1 & Ha1 & Hk1).
+      destruct (HP f r0 D [] more pre_nil Hok HD HD' ltac:(unfold K; cbn [length]; lia) Ha0 Hm) as (r1 & E1 & Ha1 & Hk1).
       rewrite (pbind_eq _ _ _ _ _ E1).
       exists r1. split; [reflexivity|]. split; [assumption|congruence].
   Qed.
@@ -450,7 +449,7 @@ Section ElispRoundtrip.
     { destruct first; [reflexivity|]. unfold body_text. rewrite etxt_tail_cons. reflexivity. }
     rewrite Eb in *. rewrite <- !app_assoc in Ha. rewrite !app_length in Hf.
     destruct (elem_step a HPa f r D acc (if first then [] else [32]) (txt_tail d' ++ 41 :: rest)
-                ltac:(destruct first; [left|right]; reflexivity) Hoka ltac:(lia) HD' ltac:(unfold K; lia) Ha
+                ltac:(destruct first; [exact pre_nil|exact pre_space]) Hoka ltac:(lia) HD' ltac:(unfold K; destruct first; cbn [length] in *; lia) Ha
                 (txt_tail_delim d' rest)) as (r1 & E1 & Ha1 & Hk1).
     rewrite E1.
     destruct (HT f r1 D (acc ++ [efold a]) rest Hokd ltac:(lia) HD' ltac:(unfold K, body_text; lia) Ha1
@@ -476,7 +475,7 @@ Section ElispRoundtrip.
     rewrite (pbind_eq _ _ _ _ _ (liftR_ok _ r0 D _ _ E12)).
     change (lone_dot (Some 32)) with true. cbv iota.
     destruct acc as [|x acc]; [exfalso; apply (Hacc Hc Hn); reflexivity|].
-    destruct (HPd f r2 D [32] (41 :: rest) (or_intror eq_refl) Hok HD HD' ltac:(unfold K; lia) Ha2 (eq_refl : delim_ok (41 :: rest)))
+    destruct (HPd f r2 D [32] (41 :: rest) pre_space Hok HD HD' ltac:(unfold K; cbn [length]; lia) Ha2 (eq_refl : delim_ok (41 :: rest)))
       as (r3 & E3 & Ha3 & Hk3).
     rewrite (pbind_eq _ _ _ _ _ E3).
     destruct (ws_here f r3 41 rest ltac:(lia) Ha3 close_starts_datum) as (r4 & E4 & Ha4 & Hp4 & Hk4).
@@ -499,7 +498,7 @@ Section ElispRoundtrip.
     rewrite (Hnv _ _ E1). cbn [after_token].
     rewrite (pbind_eq _ _ _ _ _ (enter_ok r1 D ltac:(lia))).
     rewrite <- app_assoc in Ha1. cbn [app] in Ha1.
-    destruct (HT f r1 (D - 1) [] rest Hok ltac:(lia) ltac:(lia) ltac:(unfold K; lia) Ha1) as (r2 & E2 & Ha2 & Hk2).
+    destruct (HT f r1 (D - 1) [] rest Hok ltac:(lia) ltac:(lia) ltac:(unfold K; cbn [length]; lia) Ha1) as (r2 & E2 & Ha2 & Hk2).
     { intros Hc Hn. destruct Hshape; congruence. }
     rewrite (pbind_eq _ _ _ _ _ (attempt_ok _ _ _ _ E2)).
     rewrite (pbind_eq _ _ _ _ _ (inc_ok r2 (D - 1) ltac:(lia))).
@@ -513,7 +512,7 @@ Section ElispRoundtrip.
 
   (* ---- vectors ---- *)
   Lemma elem_step_vec a : P a -> forall f r D acc pre more, pre_ok pre -> ert_ok a -> N.of_nat (rdepth a) < D -> D <= 128 ->
-    (length (txt a) + K <= f)%nat -> at_bytes r (pre ++ txt a ++ more) -> delim_ok more ->
+    (length pre + length (txt a) + K <= f)%nat -> at_bytes r (pre ++ txt a ++ more) -> delim_ok more ->
     exists r1, parse_vector (S f) 93 acc (mkp r D) = parse_vector f 93 (acc ++ [efold a]) (mkp r1 D) /\
                at_bytes r1 more /\ rk r1 = rk r.
   Proof.
@@ -524,7 +523,7 @@ Section ElispRoundtrip.
     destruct (ws_pre f r pre b (t ++ more) ltac:(lia) Hpre Ha' Hst) as (r0 & E0 & Ha0 & Hp0 & Hk0).
     rewrite (pbind_eq _ _ _ _ _ (liftR_ok _ r D _ _ E0)). rewrite Hcl.
     change (b :: t ++ more) with ((b :: t) ++ more) in Ha0. rewrite <- E in Ha0.
-    destruct (HP f r0 D [] more (or_introl eq_refl) Hok HD HD' ltac:(unfold K; lia) Ha0 Hm) as (r1 & E1 & Ha1 & Hk1).
+    destruct (HP f r0 D [] more pre_nil Hok HD HD' ltac:(unfold K; cbn [length]; lia) Ha0 Hm) as (r1 & E1 & Ha1 & Hk1).
     rewrite (pbind_eq _ _ _ _ _ E1).
     exists r1. split; [reflexivity|]. split; [assumption|congruence].
   Qed.
@@ -554,10 +553,10 @@ Section ElispRoundtrip.
       pose proof (txt_nonempty x Hokx) as Hlen.
       rewrite vec_elems_cons in *. rewrite <- !app_assoc in Ha. rewrite !app_length in Hf.
       destruct (elem_step_vec x HPx f r D acc (if first then [] else [32]) (vec_elems false l ++ 93 :: rest)
-                  ltac:(destruct first; [left|right]; reflexivity) Hokx ltac:(lia) HD' ltac:(unfold K; lia) Ha
+                  ltac:(destruct first; [exact pre_nil|exact pre_space]) Hokx ltac:(lia) HD' ltac:(unfold K; destruct first; cbn [length] in *; lia) Ha
                   (vec_rest_delim l rest)) as (r1 & E1 & Ha1 & Hk1).
       rewrite E1.
-      destruct (IH false f r1 D (acc ++ [efold x]) rest Hokl ltac:(lia) HD' ltac:(unfold K; lia) Ha1) as (r2 & E2 & Ha2 & Hk2).
+      destruct (IH false f r1 D (acc ++ [efold x]) rest Hokl ltac:(lia) HD' ltac:(unfold K; cbn [length]; lia) Ha1) as (r2 & E2 & Ha2 & Hk2).
       exists r2. rewrite E2, <- app_assoc. cbn [map app]. split; [reflexivity|]. split; [assumption|congruence].
   Qed.
 
@@ -571,7 +570,7 @@ Section ElispRoundtrip.
     rewrite (Hnv _ _ E1). cbn [after_token].
     rewrite (pbind_eq _ _ _ _ _ (enter_ok r1 D ltac:(lia))).
     rewrite <- app_assoc in Ha1. cbn [app] in Ha1.
-    destruct (Vl l HPl true f r1 (D - 1) [] rest Hok ltac:(lia) ltac:(lia) ltac:(unfold K; lia) Ha1) as (r2 & E2 & Ha2 & Hk2).
+    destruct (Vl l HPl true f r1 (D - 1) [] rest Hok ltac:(lia) ltac:(lia) ltac:(unfold K; cbn [length]; lia) Ha1) as (r2 & E2 & Ha2 & Hk2).
     rewrite (pbind_eq _ _ _ _ _ (attempt_ok _ _ _ _ E2)).
     rewrite (pbind_eq _ _ _ _ _ (inc_ok r2 (D - 1) ltac:(lia))).
     replace (D - 1 + 1) with D by lia.
@@ -608,7 +607,7 @@ Section ElispRoundtrip.
     assert (Hlen : length inp = length (txt v)) by (unfold inp, bytes_events; apply map_length).
     assert (Hfuel : (length (txt v) + K <= fuel)%nat) by (unfold fuel, fuel_for, K; lia).
     assert (Ha : at_bytes (mk_reader k inp) ([] ++ txt v ++ [])) by (rewrite app_nil_r; reflexivity).
-    destruct (proj1 (next_value_reads_text v) fuel (mk_reader k inp) initial_depth [] [] (or_introl eq_refl) Hok
+    destruct (proj1 (next_value_reads_text v) fuel (mk_reader k inp) initial_depth [] [] pre_nil Hok
                 ltac:(unfold initial_depth; lia) ltac:(unfold initial_depth; lia) Hfuel Ha I) as (r' & E & Ha' & Hk').
     change (init_state k inp) with (mkp (mk_reader k inp) initial_depth).
     unfold expect_value. rewrite (pbind_eq _ _ _ _ _ (pbind_eq _ _ _ _ _ E)).
